@@ -1,6 +1,7 @@
 (* C20 — primitive value conversions are correct on their entire domains.
    Statements only; proofs are in BMC.PrimProofs / BMC.StringProofs. *)
-From BMC Require Import Base Prim PrimProofs.
+From BMC Require Import Base Prim PrimProofs StringProofs.
+From BMCProps Require Import Tie.
 
 (* BCD byte: tens in the high nibble, units in the low nibble *)
 Theorem C20_bcd : forall b, b < 256 -> Impl.bcd_decode b = 10 * (b / 16) + b mod 16.
@@ -66,3 +67,19 @@ Example C20_twos_example : Impl.twos 3 0xff 10 = (-1)%Z /\ Impl.twos 0 8 4 = (-8
 Proof. vm_compute. split; reflexivity. Qed.
 Example C20_rolling_example : Impl.rolling_byte 7200 = 0x82 /\ Impl.rolling_duration 0x82 = 7200.
 Proof. vm_compute. split; reflexivity. Qed.
+
+(* ID strings of every length (not only the 0..31 characters a type/length byte can announce), every
+   character position, every code: BCD plus = two 4-bit codes per byte, high nibble first, through the table
+   0-9 space - . : , _ ; packed 6-bit ASCII = four 6-bit codes in three bytes, least significant bits first,
+   code + 20h; 8-bit ASCII + Latin-1 = the bytes themselves.  [Spec.pack_nibbles], [Spec.pack6]: the
+   specification's packing, written with arithmetic. *)
+Theorem C20_bcd_plus_string : forall ns tail, Forall (fun n => n < 16) ns ->
+  Impl.decode_bcd_plus (Spec.pack_nibbles ns ++ tail) (length ns) = Ok (map Spec.bcd_plus_rune ns, Nat.div (length ns + 1) 2).
+Proof. exact bcd_plus_roundtrip. Qed.
+Theorem C20_packed6_string : forall cs tail, Forall (fun c => c < 64) cs ->
+  Impl.decode_packed6 (Spec.pack6 cs ++ tail) (length cs) = Ok (map (fun c => c + 0x20) cs, (length cs - Nat.div (length cs) 4)%nat).
+Proof. exact packed6_roundtrip. Qed.
+Theorem C20_latin1_string : forall s tail, (length s <> 1)%nat -> Impl.decode_latin1 (s ++ tail) (length s) = Ok (s, length s).
+Proof. exact latin1_roundtrip. Qed.
+Theorem C20_bcd_plus_table_tie : G.bcdPlusRunes = Impl.bcd_plus_runes.
+Proof. exact tie_bcd_plus_runes. Qed.
